@@ -195,6 +195,11 @@ where
     fn next(&mut self) -> Option<(I, P)> {
         self.pq.pop_min()
     }
+
+    fn size_hint(&self) -> (usize, Option<usize>) {
+        let remaining = self.pq.len();
+        (remaining, Some(remaining))
+    }
 }
 
 impl<I, P, H> DoubleEndedIterator for IntoSortedIter<I, P, H>
